@@ -23,6 +23,18 @@ def b2b_box_jobs(quick):
     hi = [0xF80 + a for a in range(0, 128, 4)] + [0xFFF, 0xFFD]
     box = dict(addr=hi, len=[0, 1, 3, 7, 15], size=[0, 2, 3], burst=[INCR, WRAP], id=ids)
     J.append(Job("D", lambda box=box: B2BInst("Burst2Beat/aw12/all-caps/top-of-space", aw=12, caps=ALL, box=box)))
+    if not quick:
+        # large transfer sizes and long bursts (thorough only)
+        for size in (4, 5, 6, 7):
+            addrs = sorted(set(list(range(0, 4096, 1 << size)) + [1, 0x7FF, 0xFFF, (1 << size) + 3]))
+            if len(addrs) > 80:
+                addrs = addrs[::len(addrs) // 64] + addrs[-3:]
+            box = dict(addr=addrs, len=[0, 1, 2, 3, 7, 15, 31], size=[size], burst=[FIXED, INCR, WRAP], id=ids)
+            J.append(Job("D", lambda box=box, size=size: B2BInst("Burst2Beat/aw12/all-caps/large/size%d" % size,
+                                                                 aw=12, caps=ALL, box=box)))
+        box = dict(addr=[0, 1, 0x10, 0x800, 0xF00, 0xFFF], len=[63, 64, 127, 128, 254, 255], size=[0, 1, 2, 3, 4],
+                   burst=[FIXED, INCR, WRAP], id=ids)
+        J.append(Job("D", lambda box=box: B2BInst("Burst2Beat/aw12/all-caps/long", aw=12, caps=ALL, box=box)))
     small = dict(addr=list(range(16)), len=list(range(6)), size=[0, 1, 2], burst=[FIXED, INCR, WRAP, RESERVED], id=ids)
     for caps, nm in (((FIXED,), "fixed-only"), ((FIXED, INCR), "fixed+incr"), ((FIXED, WRAP), "fixed+wrap")):
         J.append(Job("D", lambda caps=caps, nm=nm: B2BInst("Burst2Beat/aw12/%s" % nm, aw=12, caps=caps, box=small)))
@@ -41,6 +53,8 @@ def b2b_random_jobs(quick):
     J.append(Job("B", lambda: B2BInst("Burst2Beat/aw16/fixed+incr/legal", aw=16, caps=(FIXED, INCR), legal_only=True),
                  cycles=cyc // 2, runs=runs))
     J.append(Job("B", lambda: B2BInst("Burst2Beat/aw32/open-loop", aw=32, caps=ALL, hold=False, id_width=4),
+                 cycles=cyc // 2, runs=runs))
+    J.append(Job("B", lambda: B2BInst("Burst2Beat/aw32/axi3-ports/any", aw=32, caps=ALL, id_width=4, version="axi3"),
                  cycles=cyc // 2, runs=runs))
     return J
 
